@@ -116,7 +116,7 @@ def _validate(v: Union[str, bytes], prefixes: list):
     if isinstance(v, str):
         v = v.encode()
     v = scrub_input(v)
-    if any(map(v.startswith, prefixes)):
+    if any(len(v) == e[1] and v.startswith(e[0]) for e in base58_encodings if e[0] in prefixes):
         base58_decode(v)
     else:
         raise ValueError('Unknown prefix.')
